@@ -418,6 +418,8 @@ type ModelReply struct {
 	SpecAll   []ObsErr
 	SpecReq   []ObsErr
 	SpecUndef bool
+	// HypHold: the decidable hypotheses of theorem exec_correct_total hold for this (schema, document)
+	HypKnown, HypHold bool
 }
 
 func parseModelReply(line string) (*ModelReply, error) {
@@ -425,10 +427,14 @@ func parseModelReply(line string) (*ModelReply, error) {
 	if err != nil {
 		return nil, fmt.Errorf("%v in %q", err, line)
 	}
-	if !x.IsList || len(x.List) != 3 {
+	if !x.IsList || (len(x.List) != 3 && len(x.List) != 4) {
 		return nil, fmt.Errorf("unexpected reply %q", line)
 	}
-	r := &ModelReply{}
+	r := &ModelReply{HypKnown: len(x.List) == 4}
+	if len(x.List) == 4 {
+		hy := x.List[3]
+		r.HypHold = hy.IsList && len(hy.List) == 2 && hy.List[1].Atom == "true"
+	}
 	spec := x.List[2]
 	if !spec.IsList || spec.List[0].Atom != "spec" {
 		return nil, fmt.Errorf("unexpected spec part in %q", line)
